@@ -21,6 +21,9 @@ CHECKS = {
  "C09": dict(technique="CrossHair symbolic execution of resolvedpos.py/fragment.py/node.py position code (positions, depth argument, range ends symbolic) against a flat-token reference model",
              text="On every catalogue document (<= 25 tokens, depth <= 4, astral text, non-inclusive marks) the solver explores every path of resolve and all derived accessors, node_at, child_before/after, nodes_between, text_between, range_has_mark, shared_depth, block_range, marks, marks_across, find_index for every position / position pair (out-of-range positions must raise) and each path's result is compared with the value read off the token list.",
              ref="4/C09"),
+ "C20": dict(technique="CrossHair symbolic execution of model/diff.py under a deterministic sys.monitoring step budget (edit choice, compared texts over an astral alphabet, start offsets symbolic) against typed-token prefix/suffix reference",
+             text="For every (before, after) pair obtained from a catalogue document by one edit at any node - sharing untouched sub-trees by identity, independently rebuilt, or swapped - the solver explores every path of find_diff_start/find_diff_end with symbolic compared texts (incl. surrogate pairs sharing a high surrogate) and symbolic start offsets; termination is an assertion (step budget) and results equal the longest common prefix/suffix of the typed token sequences.",
+             ref="4/C20"),
 }
 CHECKS_END = None
 
